@@ -18,6 +18,7 @@ const (
 	SBool SortKind = iota
 	SBV
 	SInt
+	SReal
 )
 
 type Sort struct {
@@ -31,9 +32,13 @@ func (s Sort) String() string {
 		return "Bool"
 	case SBV:
 		return fmt.Sprintf("(_ BitVec %d)", s.W)
+	case SReal:
+		return "Real"
 	}
 	return "Int"
 }
+
+var RealSort = Sort{SReal, 0}
 
 var BoolSort = Sort{SBool, 0}
 var IntSort = Sort{SInt, 0}
@@ -89,6 +94,9 @@ const (
 	OInt2BV // p1 = width
 	OBV2Nat
 	OApp // uninterpreted function; name = symbol
+	ORDiv
+	OToReal
+	OToInt // floor
 )
 
 var opNames = map[Op]string{
@@ -97,7 +105,7 @@ var opNames = map[Op]string{
 	OConcat: "concat", OEq: "=", OUlt: "bvult", OUle: "bvule", OSlt: "bvslt", OSle: "bvsle",
 	OBNot: "not", OBAnd: "and", OBOr: "or", OIte: "ite",
 	OIAdd: "+", OISub: "-", OIMul: "*", OIDiv: "div", OIMod: "mod", OINeg: "-", OIAbs: "abs", OILe: "<=", OILt: "<",
-	OBV2Nat: "bv2nat",
+	OBV2Nat: "bv2nat", ORDiv: "/", OToReal: "to_real", OToInt: "to_int",
 }
 
 type Term struct {
@@ -110,6 +118,7 @@ type Term struct {
 	name string
 	p1   int
 	p2   int
+	rat  *big.Rat // const value for Real
 	ub   *big.Int // known upper bound of a non-negative Int term (nil: unknown / may be negative)
 	ubOk bool
 }
@@ -135,6 +144,7 @@ type ufSig struct {
 }
 
 type TermTable struct {
+	IntMode   bool // integer encoding of limb arithmetic: split bv2nat over concatenations
 	rangeVars map[*Term]int // Int variables known to lie in [0, 2^bits)
 	tab   map[termKey]*Term
 	next  int
@@ -458,6 +468,13 @@ func (tt *TermTable) BVBin(op Op, a, b *Term) *Term {
 	case OSub, OShl, OLShr, OAShr:
 		if isZero(b) {
 			return a
+		}
+		if op == OSub && b.op == OConst && a.op == OAdd && a.args[0] == b {
+			return a.args[1] // (c + x) - c
+		}
+		if op == OSub && b.op == OConst && a.op == OInt2BV {
+			// int2bv(I) - c = int2bv(I - c)
+			return tt.Int2BV(w, tt.IBin(OISub, a.args[0], tt.Int(b.ConstBig())))
 		}
 		if op == OSub && a == b {
 			return tt.BV(w, 0)
@@ -876,6 +893,18 @@ func (tt *TermTable) Eq(a, b *Term) *Term {
 	if a.op == OConst {
 		a, b = b, a
 	}
+	// integer-encoded character: int2bv(8, k + d) == c  with 0 <= d <= ub small
+	if b.op == OConst && a.op == OInt2BV && a.args[0].op == OIAdd && a.args[0].args[0].op == OConst {
+		k := a.args[0].args[0].big
+		d := a.args[0].args[1]
+		if u := tt.ubound(d); u != nil && k.Sign() >= 0 && new(big.Int).Add(k, u).BitLen() <= a.sort.W {
+			diff := new(big.Int).Sub(b.ConstBig(), k)
+			if diff.Sign() < 0 || diff.Cmp(u) > 0 {
+				return tt.False
+			}
+			return tt.Eq(d, tt.Int(diff))
+		}
+	}
 	if b.op == OConst && a.op == OZExt {
 		iw := a.args[0].sort.W
 		if b.ConstBig().BitLen() > iw {
@@ -912,6 +941,12 @@ func (tt *TermTable) Cmp(op Op, a, b *Term) *Term {
 	}
 	if op == OUlt && b.op == OConst && b.ConstBig().Sign() == 0 {
 		return tt.False
+	}
+	if op == OSlt && a.op == OZExt && b.op == OConst && b.ConstBig().Sign() == 0 {
+		return tt.False
+	}
+	if op == OSle && b.op == OZExt && a.op == OConst && a.ConstBig().Sign() == 0 {
+		return tt.True
 	}
 	if op == OUle && a.op == OConst && a.ConstBig().Sign() == 0 {
 		return tt.True
@@ -1081,6 +1116,9 @@ nofold:
 		if a == b {
 			return tt.IntI(0)
 		}
+		if b.op == OConst && a.op == OIAdd && a.args[0].op == OConst {
+			return tt.IBin(OIAdd, tt.Int(new(big.Int).Sub(a.args[0].big, b.big)), a.args[1])
+		}
 	case OIMul:
 		if isC(a, 0) || isC(b, 0) {
 			return tt.IntI(0)
@@ -1209,7 +1247,11 @@ func (tt *TermTable) ubound(t *Term) *big.Int {
 		}
 	case OVar:
 		if b, ok := tt.rangeVars[t]; ok {
-			r = new(big.Int).Sub(pow2(b), big.NewInt(1))
+			if b < 0 {
+				r = big.NewInt(int64(-b)) // explicit maximum
+			} else {
+				r = new(big.Int).Sub(pow2(b), big.NewInt(1))
+			}
 		}
 	case OBV2Nat:
 		r = new(big.Int).Sub(pow2(t.args[0].sort.W), big.NewInt(1))
@@ -1295,7 +1337,7 @@ func (tt *TermTable) BV2Nat(a *Term) *Term {
 	if a.op == OZExt {
 		return tt.BV2Nat(a.args[0])
 	}
-	if a.op == OConcat {
+	if a.op == OConcat && tt.IntMode {
 		hi := tt.BV2Nat(a.args[0])
 		lo := tt.BV2Nat(a.args[1])
 		return tt.IBin(OIAdd, tt.IBin(OIMul, hi, tt.Int(new(big.Int).Lsh(big.NewInt(1), uint(a.args[1].sort.W)))), lo)
@@ -1352,12 +1394,82 @@ func (t *Term) constSMT() string {
 		}
 		s := v.Text(2)
 		return "#b" + strings.Repeat("0", w-len(s)) + s
+	case SReal:
+		n, d := t.rat.Num(), t.rat.Denom()
+		ns := n.String()
+		if n.Sign() < 0 {
+			ns = "(- " + new(big.Int).Neg(n).String() + ")"
+		}
+		if d.IsInt64() && d.Int64() == 1 {
+			return "(to_real " + ns + ")"
+		}
+		return "(/ (to_real " + ns + ") (to_real " + d.String() + "))"
 	default:
 		if t.big.Sign() < 0 {
 			return "(- " + new(big.Int).Neg(t.big).String() + ")"
 		}
 		return t.big.String()
 	}
+}
+
+// ---------- reals (used by the big.Float rounding model)
+
+func (tt *TermTable) Real(r *big.Rat) *Term {
+	return tt.mk(&Term{op: OConst, sort: RealSort, rat: new(big.Rat).Set(r), name: "r" + r.String()})
+}
+
+func (tt *TermTable) ToReal(a *Term) *Term {
+	if a.op == OConst {
+		return tt.Real(new(big.Rat).SetInt(a.big))
+	}
+	return tt.un(OToReal, RealSort, a)
+}
+
+// ToInt is floor.
+func (tt *TermTable) ToInt(a *Term) *Term {
+	if a.op == OConst {
+		n, d := a.rat.Num(), a.rat.Denom()
+		return tt.Int(new(big.Int).Div(n, d)) // Euclidean with positive d = floor
+	}
+	if a.op == OToReal {
+		return a.args[0]
+	}
+	return tt.un(OToInt, IntSort, a)
+}
+
+func (tt *TermTable) RBin(op Op, a, b *Term) *Term {
+	if a.sort.K != SReal || b.sort.K != SReal {
+		panic("RBin of non-real")
+	}
+	if bothConst(a, b) {
+		r := new(big.Rat)
+		switch op {
+		case OIAdd:
+			r.Add(a.rat, b.rat)
+		case OISub:
+			r.Sub(a.rat, b.rat)
+		case OIMul:
+			r.Mul(a.rat, b.rat)
+		case ORDiv:
+			if b.rat.Sign() == 0 {
+				return tt.bin(op, RealSort, a, b)
+			}
+			r.Quo(a.rat, b.rat)
+		}
+		return tt.Real(r)
+	}
+	return tt.bin(op, RealSort, a, b)
+}
+
+func (tt *TermTable) RCmp(op Op, a, b *Term) *Term {
+	if bothConst(a, b) {
+		c := a.rat.Cmp(b.rat)
+		if op == OILe {
+			return tt.Bool(c <= 0)
+		}
+		return tt.Bool(c < 0)
+	}
+	return tt.bin(op, BoolSort, a, b)
 }
 
 func smtName(n string) string { return "|" + n + "|" }
@@ -1522,6 +1634,14 @@ func (tt *TermTable) Eval(t *Term, m Model, cache map[int]*Term) (*Term, bool) {
 }
 
 func (tt *TermTable) rebuild(t *Term, a []*Term) *Term {
+	if t.sort.K == SReal || t.op == OToInt || t.op == OToReal || t.op == ORDiv {
+		return t // reals are not evaluated (big.Float model): observation cannot be predicted
+	}
+	for _, x := range a {
+		if x.sort.K == SReal {
+			return t
+		}
+	}
 	switch t.op {
 	case OAdd, OSub, OMul, OUDiv, OURem, OSDiv, OSRem, OAnd, OOr, OXor, OShl, OLShr, OAShr:
 		return tt.BVBin(t.op, a[0], a[1])
